@@ -34,5 +34,19 @@ def run(ctx, rep, tier):
         shared.tolerance_plumbing(rep, F, tag, 'C01.R3', which='full')
         shared.freshness(rep, F, E, ctx.cg(cfg), tag, 'C01.R4')
         shared.unscale_before_copy(rep, F, E, tag, 'C01.R6')
-    from . import units_rules
+    from . import units_rules, c08
     units_rules.c01(ctx, rep)
+    # the cached norms that normalise the residual figures must follow in-place data updates
+    sub = _Renamed(rep, 'C08.R4', 'C01.R8')
+    c08.caches_and_mirrors(sub, ctx.facts('default'), ctx.eff('default'), ctx.cg('default'), '')
+
+
+class _Renamed:
+    """report facade that files a shared rule under this property's own rule id"""
+
+    def __init__(self, rep, old, new):
+        self.rep, self.old, self.new = rep, old, new
+        self.assumptions = rep.assumptions
+
+    def rule(self, rid, desc):
+        return self.rep.rule(self.new if rid == self.old else rid, desc)
